@@ -1274,7 +1274,7 @@ void qarray_iter_loopaccum(qarray      *a,
             for (i = 0; i < num_spawns; i++) {
                 qthread_readFF(NULL, &(rv[i]));
                 if (i > 0) {
-                    acc(ret, &rets[i - 1]);
+                    acc(ret, rets + ((i - 1) * retsize));
                 }
             }
             FREE(qfwa, sizeof(struct qarray_accumfunc_wrapper_args) * num_spawns);
